@@ -45,6 +45,16 @@ reg("C04", "Hypothesis -> tar2sqfs/sqfs2tar (asan) -> independent parser, Python
     "Trusts lib/tarimg.py (writer + Appendix B semantics), lib/sqfsimg.py, Python tarfile and GNU tar 1.34 as readers. One known finding "
     "(xattr order flips per trip) is excluded by signature and reported as KNOWN-FINDING.", "DESIGN.md 4/C04")
 
+reg("C15", "Hypothesis -> reference compressors -> tar2sqfs / sqfs2tar -c (asan)", "exploration",
+    "differential/metamorphic: image from compressed stream == image from plain stream; reference decompressor(sqfs2tar -c) == plain output; damaged streams refused",
+    "Generated archives are compressed by reference codecs (Python zlib/lzma/bz2, libzstd with checksum) as single and concatenated members, "
+    "fed through pipes in chunk sizes down to one byte, with trailing padding/garbage and with truncation, bit flips, zero runs and "
+    "duplicated ranges; tar2sqfs must give the image of the plain archive, or refuse damaged input (never a different image with exit 0, never "
+    "a hang within 20-40 s). sqfs2tar -c X is expanded by the reference decompressor and compared with the plain output. Every truncation "
+    "offset of one small archive per codec is enumerated.",
+    "Trusts the reference codecs; hang detection is a wall-clock bound; a damaged stream that the reference decompressor still expands to the "
+    "same bytes counts as undamaged.", "DESIGN.md 4/C15")
+
 NOT_YET = {}
 
 ALL = ["C%02d" % i for i in range(1, 20)]
